@@ -54,6 +54,7 @@ type hop struct {
 	Iter    *iterSpec `json:"iter,omitempty"`
 	Pin     bool      `json:"pin,omitempty"`   // append: ask for the entry block to be pinned
 	Fault   bool      `json:"fault,omitempty"` // append/publish: the store refuses every block write during this operation
+	Stall   string    `json:"stall,omitempty"` // append: "ctx" = the store is stuck and the caller's 50 ms deadline fires during the block write (must fail like a refused write); "slow" = the block write takes 2.5 s (must succeed, and only return once the block is stored)
 }
 
 // access controller refusing a set of identities (by public key)
@@ -473,11 +474,21 @@ func (h *histRun) exec() {
 				headsBefore := hashesOf(rep.log.Heads().Slice())
 				h.inImpl = true
 				w.dag.failAdd = o.Fault
-				e, err := rep.log.Append(ctx, []byte(o.Payload), &ipfslog.AppendOptions{PointerCount: o.PC, Pin: o.Pin})
+				w.dag.stall = o.Stall
+				actx, cancel := ctx, func() {}
+				if o.Stall == "ctx" {
+					actx, cancel = context.WithTimeout(ctx, 50*time.Millisecond)
+				}
+				e, err := rep.log.Append(actx, []byte(o.Payload), &ipfslog.AppendOptions{PointerCount: o.PC, Pin: o.Pin})
+				cancel()
 				w.dag.failAdd = false
+				w.dag.stall = ""
 				h.inImpl = false
 				ob.Class = classifyErr(err)
-				if o.Fault {
+				if o.Stall == "slow" && err == nil && !w.dag.has(e.GetHash()) {
+					h.fail("C17", "acknowledged-write-stored", "C17:append-acknowledged-without-block", "Append returned while its (slow) block write had not completed", i)
+				}
+				if o.Fault || o.Stall == "ctx" {
 					h.faulted++
 					if err == nil {
 						h.fail("C17", "acknowledged-write-stored", "C17:append-acknowledged-without-block", "Append returned success although the store refused the block write", i)
@@ -1106,7 +1117,7 @@ func (h *histRun) coq() string {
 		ob := h.obs[i]
 		var op string
 		kind := o.Kind
-		if o.Fault && (kind == "append" || kind == "publish") {
+		if (o.Fault || o.Stall == "ctx") && (kind == "append" || kind == "publish") {
 			kind += "fail"
 		}
 		switch kind {
